@@ -6,7 +6,7 @@ from vf.rustcut import SourceFile, Undecided
 
 NAME = "U-plusplus"
 TOOL = "kani"
-PROPS = ["C01", "C17", "C15"]
+PROPS = ["C01", "C17", "C15", "C06"]
 TRUSTED = ["kani 0.68 / cbmc 6.11 (all 16-bit cell values, all register values: complete for the straight-line sequences emitted)",
            "A-isa: INC/DEC/INX/DEX/INY/DEY/LDA/PHA/PLA/BNE semantics incl. N/Z (in the harness interpreter)"]
 
@@ -37,12 +37,14 @@ pub struct GeneratorState<'a> {
     pub compiler_state: &'a CompilerState, pub flags: FlagsState, pub carry_flag_ok: bool, pub acc_in_use: bool, pub tmp_in_use: bool, pub local_label_counter_if: u32,
     pub rec: [Rec; 10], pub n: usize, pub arith_path: bool,
     pub passes: [u8; 4], pub np: usize,      // the byte passes of the general path: 1 = low byte stored, 2 = high byte stored
+    pub pos_bad: bool,                       // an instruction on a memory operand (which asm() may reject with a located error) was given another position than the statement's (77)
 }
 impl<'a> GeneratorState<'a> {
     fn push(&mut self, r: Rec) { if self.n < 10 { self.rec[self.n] = r; self.n += 1; } }
     pub fn sasm(&mut self, m: AsmMnemonic) -> Result<bool, Error> { self.push(Rec::Ins(m, 0)); Ok(false) }
     pub fn asm(&mut self, m: AsmMnemonic, op: &ExprType, _pos: usize, high_byte: bool) -> Result<bool, Error> {
         let k = match op { ExprType::Label(_) => 3, ExprType::Absolute(..) | ExprType::AbsoluteX(_) | ExprType::AbsoluteY(_) => if high_byte { 2 } else { 1 }, _ => 0 };
+        if (k == 1 || k == 2) && _pos != 77 { self.pos_bad = true; }
         self.push(Rec::Ins(m, k)); Ok(false)
     }
     pub fn label(&mut self, _l: &str) -> Result<(), Error> { self.push(Rec::Label); Ok(()) }
@@ -94,7 +96,7 @@ fn run(g: &GeneratorState, mut m: M) -> M {
 }
 fn any_machine() -> M { M { lo: kani::any(), hi: kani::any(), a: kani::any(), x: kani::any(), y: kani::any(), n: kani::any(), z: kani::any(), stk: 0, sp: 0, bad: false } }
 fn new_state<'a>(cs: &'a CompilerState, acc_live: bool) -> GeneratorState<'a> {
-    GeneratorState { compiler_state: cs, flags: FlagsState::Unknown, carry_flag_ok: false, acc_in_use: acc_live, tmp_in_use: false, local_label_counter_if: 0, rec: [Rec::None; 10], n: 0, arith_path: false, passes: [0; 4], np: 0 }
+    GeneratorState { compiler_state: cs, flags: FlagsState::Unknown, carry_flag_ok: false, acc_in_use: acc_live, tmp_in_use: false, local_label_counter_if: 0, rec: [Rec::None; 10], n: 0, arith_path: false, pos_bad: false, passes: [0; 4], np: 0 }
 }
 #[cfg(kani)]
 mod harness {
@@ -124,6 +126,18 @@ H16 = """    #[kani::proof] #[kani::unwind(12)]
         if g.flags != FlagsState::Unknown { assert!(m.z == (after == 0)); }
     }
 """
+HPOS = """    #[kani::proof] #[kani::unwind(12)]
+    fn %(name)s() {      // %(what)s
+        let cs = CompilerState { v: Variable { var_type: VariableType::%(vt)s, memory: VariableMemory::Zeropage, var_const: false, signed: false, size: 1 } };
+        let mut g = new_state(&cs, kani::any());
+        let operand = %(operand)s;
+        let _ = g.generate_plusplus(&operand, 77, kani::any());
+        // asm() locates the errors it reports (a read-modify-write on split-port memory ...) with the position it is given: every instruction on the
+        // variable carries the position of the statement
+        assert!(!g.pos_bad);
+    }
+"""
+
 H8 = """    #[kani::proof] #[kani::unwind(12)]
     fn %(name)s() {      // %(what)s
         let cs = CompilerState { v: Variable { var_type: VariableType::Char, memory: VariableMemory::Zeropage, var_const: false, signed: false, size: 1 } };
@@ -227,6 +241,9 @@ def build(repo):
             ["C01", "C15"], "plusplus-x-%s" % word, "%s of X: value, other registers, flags belief" % word)
         add("pp_y_%s" % word, H8 % {"name": "pp_y_%s" % word, "what": "register Y, %s" % word, "operand": "ExprType::Y", "pp": pp, "check": "m.y == m0.y.%s(1) && m.lo == m0.lo && m.a == m0.a && m.x == m0.x" % sign, "val": "m.y"},
             ["C01", "C15"], "plusplus-y-%s" % word, "%s of Y: value, other registers, flags belief" % word)
+    for nm_, vt_, op_ in (("short", "Short", abs16), ("char", "Char", abs8), ("shortptr_x", "ShortPtr", absx), ("charptr_x", "CharPtr", absx)):
+        add("pp_positions_%s" % nm_, HPOS % {"name": "pp_positions_%s" % nm_, "what": "%s: positions handed to asm()" % nm_, "vt": vt_, "operand": op_}, ["C06", "C01"], "plusplus-%s-instructions-carry-the-statement-position" % nm_.replace("_", "-"),
+            "++/-- of a %s: every instruction emitted on the variable is given the statement's position (asm() reports its errors there)" % nm_, cfgs=(None,))
     add("pp_element_y_width", H18 % {"name": "pp_element_y_width"}, ["C01", "C15"], "plusplus-y-indexed-element-width", "++/-- of v[Y]: one byte pass for an array of chars, low then high for an array of shorts / of pointers (as with an X index or a constant index)")
     add("pp_splitport_element_x_width", H18S % {"name": "pp_splitport_element_x_width", "reg": "X", "operand": absx}, ["C17", "C01", "C15"], "splitport-x-indexed-element-width",
         "cfg atari2600: ++/-- of v[X] in split-port RAM: one byte pass for an array of chars, low then high for an array of shorts / of pointers", cfgs=("atari2600",))
